@@ -47,4 +47,40 @@ def vec3OfList : List Rat → Except String (Py.Vec3 Rat)
   | [x, y, z] => pure ⟨x, y, z⟩
   | _ => .error "vector: 3 entries expected"
 
+/-- a selection as the harness writes it: for each of chainID / resSeq / name / resName an optional list of admitted values
+    and an optional list of excluded values (`no_…`); an absent key does not restrict -/
+structure SelSpec where
+  chainID : Option (List Py.Str) := none
+  resSeq : Option (List Int) := none
+  name : Option (List Py.Str) := none
+  resName : Option (List Py.Str) := none
+  noChainID : Option (List Py.Str) := none
+  noResSeq : Option (List Int) := none
+  noName : Option (List Py.Str) := none
+  noResName : Option (List Py.Str) := none
+
+def optStrs (j : Json) (k : String) : Except String (Option (List Py.Str)) :=
+  if jHas j k then do let l ← jStrList j k; pure (some l) else pure none
+
+def optInts (j : Json) (k : String) : Except String (Option (List Int)) :=
+  if jHas j k then do let l ← jIntList j k; pure (some l) else pure none
+
+def jSel (j : Json) (k : String) : Except String SelSpec := do
+  let o ← jVal j k
+  pure { chainID := ← optStrs o "chainID", resSeq := ← optInts o "resSeq", name := ← optStrs o "name", resName := ← optStrs o "resName",
+         noChainID := ← optStrs o "no_chainID", noResSeq := ← optInts o "no_resSeq", noName := ← optStrs o "no_name",
+         noResName := ← optStrs o "no_resName" }
+
+def inOpt {α : Type} [BEq α] (o : Option (List α)) (x : α) : Bool :=
+  match o with | none => true | some l => l.contains x
+
+def outOpt {α : Type} [BEq α] (o : Option (List α)) (x : α) : Bool :=
+  match o with | none => true | some l => !l.contains x
+
+def SelSpec.test (s : SelSpec) (a : Py.Atom) : Bool :=
+  inOpt s.chainID a.chainID && inOpt s.resSeq a.resSeq && inOpt s.name a.name && inOpt s.resName a.resName &&
+  outOpt s.noChainID a.chainID && outOpt s.noResSeq a.resSeq && outOpt s.noName a.name && outOpt s.noResName a.resName
+
+def SelSpec.nameGiven (s : SelSpec) : Bool := s.name.isSome
+
 end Driver.GCommon
